@@ -19,6 +19,13 @@ Theorem C01_gate_sound : forall root, gate_ok false root = true ->
   NoDup (fold_right (fun o acc => match o with Some i => i :: acc | None => acc end) [] (map snd (all_contexts root))).
 Proof. exact gate_sound. Qed.
 
+(* drop_unsupported: whatever the input tree, after pruning every remaining element has an allowed path
+   (for either value of allow_text), so the gate can only still report a missing defs or duplicate ids —
+   "with drop_unsupported the call does not fail because of unsupported elements" *)
+Theorem C01_drop_unsupported_leaves_allowed_paths : forall at_ root,
+  Forall (fun c => allowed at_ (fst c) = true) (all_contexts (prune (depth root) at_ [("svg", O)] root)).
+Proof. exact prune_all_allowed. Qed.
+
 (* non-vacuity: a concrete pico tree passes the gate, a tree with a rect does not *)
 Example C01_gate_accepts :
   gate_ok false (XN "svg" None [XN "defs" None [XN "linearGradient" (Some "a") [XN "stop" None []]];
@@ -33,5 +40,5 @@ Example C01_allowlist_pinned : CHECKPICO_ALLOWLIST_srcs =
    "^/svg\[0\](/(path|g)\[\d+\])+$"; "^/svg\[0\](/(text|textPath)\[\d+\])+(/(text|tspan|textPath)\[\d+\])*$"].
 Proof. reflexivity. Qed.
 
-Definition C01_all := (C01_allowed_paths, C01_gate_sound, C01_gate_accepts, C01_gate_rejects, C01_allowlist_pinned).
+Definition C01_all := (C01_allowed_paths, C01_gate_sound, C01_drop_unsupported_leaves_allowed_paths, C01_gate_accepts, C01_gate_rejects, C01_allowlist_pinned).
 Print Assumptions C01_all.
